@@ -41,6 +41,7 @@ def spec_items(tier):
     AS = [('a',), ('b',), ('a', 'b')]
     R3 = [F(-1), F(0), F(1)]
     yield from build.enum_mdps(1, AS, 0, R3, [(), (0,)], build.INIT_MENU[1], [F(1, 2), F(1)])
+    yield from build.edge_mdps()
     if tier == 'quick':
         yield from build.enum_mdps(2, AS, 1, [F(-1), F(0)], [(), (1,), (0,)], [build.INIT_MENU[2][0], build.INIT_MENU[2][2]],
                                    [F(9, 10), F(1)])
